@@ -294,7 +294,8 @@ let show_bret = function
   | BCount None -> "n"
   | BCount (Some (s, f)) -> Printf.sprintf "e%s:%s" (Zconv.string_of_z s) (Zconv.string_of_z f)
 let parse_bop name _ = match name with
-  | "c" -> CanRequest | "s" -> OnSuccess | "f" -> OnFailure
+  | "c" | "x" -> CanRequest   (* x = Execute(ctx, fn): CanRequest followed by fn or ErrFailFast *)
+  | "s" -> OnSuccess | "f" -> OnFailure
   | "ws" -> WSuccess | "wf" -> WFailure | "wc" -> WCount
   | _ -> failwith ("unknown breaker op " ^ name)
 let show_log log =
